@@ -177,6 +177,7 @@ class Handler:
         self.calls = set()
         self.reads = set()     # scalar names read
         self.incomplete = []   # reasons the interpretation lost precision
+        self.discr = set()     # decoder-object paths whose variant the code branches on (e.g. "...operands[0].type_")
 
 
 class Shape:
@@ -434,6 +435,9 @@ class Shape:
                 return b if a[1] else ("bool", False)
             return ("bool", True) if a[1] else b
         if op in ("Eq", "Ne") and isinstance(a, tuple) and isinstance(b, tuple):
+            for x_, y_ in ((a, b), (b, a)):
+                if x_[0] == "obj" and y_[0] == "path" and "(" in str(x_[1]):
+                    self.h.discr.add(x_[1])
             if a[0] == "obj" and ("obj", a[1]) in self.assume:
                 a = ("path", self.assume[("obj", a[1])])
             if b[0] == "obj" and ("obj", b[1]) in self.assume:
@@ -663,6 +667,8 @@ class Shape:
         # a decoder field already matched on this path keeps the value it was matched to
         sv_obj = sv[1] if isinstance(sv, tuple) and sv[0] == "obj" and "(" in str(sv[1]) else None
         unit_only = all(p.get("k") in ("Path", "Wild", "Bind") for a in n["arms"] for p in pat_leaves(a["pat"]))
+        if sv_obj is not None:
+            self.h.discr.add(sv_obj)
         if sv_obj is not None and ("obj", sv_obj) in self.assume and unit_only:
             sv = ("path", self.assume[("obj", sv_obj)])
             sv_obj = None
